@@ -120,7 +120,7 @@ POSITIONS = [
     "caller_local", "global_scan", "global_namesake", "prop_ret", "uses", "program_swaps_profiler", "instance_attr_namesake", "uses_random",
     "ret_untypable", "yield_untypable", "arg_untypable", "unresolvable_callee",
 ]
-FAULT_SITES = ["log1", "log2", "log3", "flush"]
+FAULT_SITES = ["log1", "log2", "log3", "flush"]   # thorough adds log4 (see run)
 
 
 def scenario(M, T, kind: str, pos: str) -> Callable[[], Any]:
@@ -368,8 +368,14 @@ def load(ctx: Ctx):
     return M, T, {M.__file__}
 
 
+THOROUGH = [False]
+
+
 def fault_sets() -> List[Tuple[str, ...]]:
-    return [()] + [(a,) for a in FAULT_SITES] + list(itertools.combinations(FAULT_SITES, 2))
+    base = [()] + [(a,) for a in FAULT_SITES] + list(itertools.combinations(FAULT_SITES, 2))
+    if THOROUGH[0]:
+        base += list(itertools.combinations(FAULT_SITES, 3)) + [tuple(FAULT_SITES)]
+    return base
 
 
 def cases() -> List[Tuple[str, str]]:
@@ -385,6 +391,7 @@ def cases() -> List[Tuple[str, str]]:
 
 
 def run(ctx: Ctx) -> Result:
+    THOROUGH[0] = ctx.tier == "thorough"
     cs = cases()
     nshards = ctx.workers
 
